@@ -7,6 +7,7 @@ import (
 	"crypto/sha256"
 	"encoding/hex"
 	"fmt"
+	"github.com/ethereum/go-ethereum/common"
 
 	sdkmath "cosmossdk.io/math"
 	codectypes "github.com/cosmos/cosmos-sdk/codec/types"
@@ -240,4 +241,9 @@ func BridgeCallCheckpointE(chain, gravityID string, b *cctypes.OutgoingBridgeCal
 		return trontypes.GetCheckpointBridgeCall(b, gravityID)
 	}
 	return b.GetCheckpoint(gravityID)
+}
+
+// ExtAddrOfHex spells a 20-byte address the way chain writes its addresses.
+func ExtAddrOfHex(chain string, a common.Address) string {
+	return cctypes.ExternalAddrToStr(chain, a.Bytes())
 }
